@@ -62,9 +62,13 @@ check("C02", "exploration",
       "while, counted for, break, continue, return, out(e) - 2730 programs quick - rendered into Python, JavaScript, Java, C, PHP and Go, "
       "lowered by the real lang phase (100 functions per file), and executed by ONE reference GIR interpreter (operator table per language "
       "family) on 9 input vectors; output sequence and return value must equal the reference semantics (CPython on the Python rendering). "
-      "Plus a vocabulary check: every emitted operation must be a key of the real def-use handler table.",
-      "Ints only (no division, strings, records or arrays: those are covered for Python by C01). TypeScript has no renderer here (C03 covers "
-      "its frontend). The GIR interpreter accepts condition_prebody on while_stmt (C frontend) as it does for for_stmt.",
+      "Plus a vocabulary check: every emitted operation must be a key of the real def-use handler table. Plus four hand-written parallel "
+      "families (strings with compound concatenation, nested records, arrays, 3-argument helper calls) in every frontend that can "
+      "express them, and one mixed-language invocation (-l c,java,javascript,php,python, 40 programs per frontend) in which every unit "
+      "must lower as it does alone.",
+      "The exhaustive part is ints only (no division); strings, records and arrays across languages only through the four hand-written "
+      "families (Python has them exhaustively in C01). TypeScript has no renderer here (C03 covers its frontend). The GIR interpreter "
+      "accepts condition_prebody on while_stmt (C frontend) as it does for for_stmt.",
       "bounded exhaustive program enumeration x frontends, differential execution against a reference semantics", "DESIGN.md §2 C02")
 
 check("C03", "exploration",
@@ -96,19 +100,22 @@ check("C04", "exploration",
 
 check("C05", "exploration",
       "Every Python scope tree from 6 shapes (module/def, def/def, sibling defs, class with method, def with two nested defs, def nested "
-      "in a method) x per-scope role of one name in {nothing, assign, read, assign+read, global+assign, nonlocal+assign} that compiles "
+      "in a method; plus functions defined inside if / for / while / try blocks) x per-scope role of one name in {nothing, assign, read, assign+read, global+assign, nonlocal+assign} that compiles "
       "and contains a read (626 programs quick, 1.2 k thorough), analysed by the real semantic pipeline. Every assignment writes a "
       "unique constant, so the value set held for the name at a read names the declarations the read is bound to. Oracle: stdlib "
       "symtable gives the variable each occurrence belongs to; the value CPython observes at the read (if assigned in the read's own or "
       "an enclosing scope) must be in the observed set, and every observed value must have been assigned to that same variable - never a "
-      "sibling, inner or class-level one. Second oracle: renaming the name consistently leaves all observed sets unchanged.",
-      "Python only: JavaScript let/const/var scoping and multi-file import forms are not generated here (import forms are exercised "
-      "through call edges in C07 and C12). Reads inside class bodies are not generated. Binding observed through values.",
+      "sibling, inner or class-level one. Second oracle: renaming the name consistently leaves all observed sets unchanged. Third oracle (symbol level, on the "
+      "phase-1 symbol spaces): every read resolves to a declaration of the scope symtable selects, also where no value is available. "
+      "Import part: every import form (absolute, relative with 1-3 dots, module and symbol aliases) over nested packages must bind "
+      "the imported name to the declaration in the file CPython's import system selects.",
+      "Python only: JavaScript let/const/var scoping is not generated. Reads inside class bodies are not generated.",
       "bounded exhaustive enumeration of scope shapes, symtable + CPython oracle and rename metamorphic relation", "DESIGN.md §2 C05")
 
 check("C06", "exploration",
       "Every method with <=5 (thorough 6) statement nodes over definitions of x (each writing a unique constant), uses of x, if, "
-      "if-else, while, for-in (nested <=2), break, continue, early return, with opaque conditions - 5460 methods / 12 k uses quick - "
+      "if-else, while, for-in (nested <=2), break, continue, early return, with opaque conditions, plus 3/4/5-arm if-elif chains, deep then-chains and "
+      "definitions by conditional expressions (temporaries with two definitions) - 5.5 k methods / 12 k uses quick - "
       "each an entry point of the real semantic pipeline. Because every definition writes a different constant, the value set the "
       "analysis holds for x at a use names the definitions it treats as reaching. (i) soundness: on every decision vector in which "
       "no loop body runs more than once, the value read at each use by the reference GIR interpreter is in the observed set; "
@@ -144,8 +151,9 @@ check("C08", "exploration",
 
 check("C09", "exploration",
       "The same loop-free value programs as C08(a) judged for exactness: with opaque conditions every CFG path is feasible, so the "
-      "exact answer at a definition is the set of values it takes over all decision vectors; required: observed primitive value set "
-      "== exact set and no unknown state - no retained overwritten value, no cross-field / cross-object bleed, no cross-call-site "
+      "reference answer at a definition is the non-relational collecting semantics (one value set per variable / field, every path "
+      "feasible, binary operations = all operand combinations; mc/gen/valgen.abstract_expected), i.e. the most precise answer the "
+      "advertised domain can express; required: observed primitive value set == reference set and no unknown state - no retained overwritten value, no cross-field / cross-object bleed, no cross-call-site "
       "bleed, binary operations on constants = set of operand combinations. 7976 definitions quick.",
       "Loop-free, single allocation per variable, integer constants only (where the statement demands exactness).",
       "bounded exhaustive program enumeration, exact collecting semantics vs abstract state sets", "DESIGN.md §2 C09")
@@ -154,7 +162,8 @@ check("C10", "exploration",
       "Exhaustive product of taint programs: chains of <=2 links from a 14-link (thorough 17) alphabet - copy, operator, parameter "
       "pass/return, field, element, display, dict, global container, object method, branch merge, loop-carried once, and the broken "
       "variants overwritten / other object / other field / other variable / other argument - x source kinds (call, method call, "
-      "parameter) x sink kinds (call, method call) x placement (top level / function) x layout (one / two files); 632 programs quick. "
+      "parameter, helper with early return, helper called from two sites; sources return fresh objects) x sink kinds (call, method "
+      "call, second argument, keyword-argument callee and its cut variant) x placement (top level / function) x layout (one / two files); 632 programs quick. "
       "Ground truth: CPython execution with a label-tracking value class, cross-checked against the construction tags. Required: "
       "truth subset of the flows the real `run` pipeline reports (source line, sink line).",
       "One source and one sink site per program; explicit flows only; field-read sources and field/record-write sinks are not "
